@@ -267,6 +267,9 @@ def eventStrs : Event → List String
   | .timeout2 c s n => (List.range n).map fun i => s!"timeout2 {c} {s} {i}"
   | .send2 c s n => (List.range n).map fun i => s!"send2 {c} {s} {i}"
   | .hs k p c => [s!"hs {k} {p} {c}"]
+  | .send1 .. => []
+  | .genClient _ => []
+  | .genConn _ => []
 
 def answer (o n : ChainState) (out : Out) : Json :=
   match out with
